@@ -303,6 +303,21 @@ func (d *Driver) Apply(s Step) bool {
 		d.C.Queue(tx)
 		return true
 
+	case "swapByDenom": // the amm front end that finds the route itself (exact-in form); queues a request like the explicit messages
+		amt := d.size(s.S("sz"), math.NewInt(1_000_000_000_000))
+		if n, ok := math.NewIntFromString(s.S("sz")); ok {
+			amt = n
+		}
+		rcpt := s.S("rcpt")
+		if rcpt == "" {
+			rcpt = user
+		}
+		ev := newEvent("amm.MsgSwapByDenom", user)
+		ev.Args["din"], ev.Args["dout"], ev.Args["ain"], ev.Args["rcpt"] = s.S("din"), s.S("dout"), amt.String(), rcpt
+		d.queue(user, ev, &ammtypes.MsgSwapByDenom{Sender: d.addr(user), Amount: sdk.NewCoin(s.S("din"), amt), MinAmount: sdk.NewCoin(s.S("dout"), math.OneInt()),
+			DenomIn: s.S("din"), DenomOut: s.S("dout"), Recipient: d.addr(rcpt)})
+		return true
+
 	case "createAssetInfo": // the permissionless oracle listing of a denom
 		ev := newEvent("oracle.MsgCreateAssetInfo", user)
 		ev.Args["denom"] = s.S("d")
